@@ -12,16 +12,27 @@ exact weighted tardiness on every SMTWTP episode.  All data are small integers /
 import itertools
 from fractions import Fraction
 
+from vt import sched_guard as guard
 from vt.common import cz, cnat, cbool, cboollist, clist, coq_eval_shards
 
 HEADER = ("From Coq Require Import List ZArith Bool.\n"
           "From RL4CO Require Import Env.FFSP Env.SMTWTP Harness.HC07_ffsp.\n"
           "Import ListNotations.\n")
 
+HEADER_GUARD = ("From Coq Require Import List ZArith Bool.\n"
+                "From RL4CO Require Import Env.FFSP Env.SMTWTP Harness.HC07_ffsp Harness.HC0234_ffsp.\n"
+                "Import ListNotations.\n")
+
 CORR_TAGS = {1: "impl mask not inside model mask", 2: "action outside the model mask", 3: "done differs",
              4: "reward differs", 7: "model step = None", 8: "stage_idx differs", 9: "stage_machine_idx differs",
              10: "schedule differs", 11: "job_location differs", 12: "instance not well-formed (wfb false)",
-             13: "episode not finished"}
+             13: "episode not finished", 14: "time_idx (FFSP) / current_time (SMTWTP) differs", 15: "sub_time_idx (FFSP) / current_job (SMTWTP) differs",
+             16: "machine_idx differs (FFSP) / bookkeeping list has another length than the steps (SMTWTP)", 17: "machine_wait_step differs",
+             18: "job_wait_step differs", 19: "job_location differs (per step)"}
+# the keys of the step output the row models have a counterpart for, compared after reset and after EVERY step
+FFSP_KEYS_COMPARED = ["time_idx", "sub_time_idx", "machine_idx", "machine_wait_step", "job_wait_step", "job_location",
+                      "stage_idx", "stage_machine_idx", "done", "action_mask (impl inside model)"]
+SMTWTP_KEYS_COMPARED = ["current_time", "current_job", "done", "action_mask (impl inside model)"]
 
 
 # ------------------------------------------------------------------------------------------------ FFSP
@@ -34,7 +45,11 @@ def _ffsp_env(J, S, M, lo, hi, flat=True):
 def _obs(td, r):
     return {"mask": [bool(x) for x in td["action_mask"][r].tolist()],
             "done": bool(td["done"].reshape(-1)[r]),
-            "stage": int(td["stage_idx"][r]), "sm": int(td["stage_machine_idx"][r])}
+            "stage": int(td["stage_idx"][r]), "sm": int(td["stage_machine_idx"][r]),
+            "keys": {"time": int(td["time_idx"][r]), "sub": int(td["sub_time_idx"][r]), "mach": int(td["machine_idx"][r]),
+                     "mws": [int(x) for x in td["machine_wait_step"][r].tolist()],
+                     "jws": [int(x) for x in td["job_wait_step"][r].tolist()],
+                     "jloc": [int(x) for x in td["job_location"][r].tolist()]}}
 
 
 def _pick(policy, rng, mask, J):
@@ -53,51 +68,95 @@ def _pick(policy, rng, mask, J):
     return rng.choice(adm)
 
 
-def ffsp_episode(env, run_time, policies, rng, pomo=1, pre_step=False, forced=None, max_steps=4000):
-    """Run one batch to the end.  run_time: list (rows) of J x T integer tables.  Returns per-row records."""
+def _stage_pattern(stages):
+    z = sum(1 for x in stages if x == 0)
+    return "all0" if z == len(stages) else ("none0" if z == 0 else "mixed")
+
+
+def ffsp_episode(env, run_time, policies, rng, pomo=1, pre_step=False, forced=None, max_steps=4000, probe_pre_step=False):
+    """Run one batch to the end.  run_time: list (rows) of J x T integer tables.  Returns per-row records.
+    probe_pre_step: additionally call env.pre_step on a CLONE of the running batch the first time each stage pattern (every row
+    at stage 0 / some / none) is met, and record whether it raised (records[0]["pre_step_probes"])."""
     import torch
     from tensordict import TensorDict
     from rl4co.utils.ops import batchify
     B = len(run_time)
     J, T = env.num_job, env.num_machine_total
-    td = env.reset(TensorDict({"run_time": torch.tensor(run_time, dtype=torch.long)}, batch_size=[B]))
-    if pomo > 1:
-        td = batchify(td, pomo)
-    if pre_step:
-        td = env.pre_step(td)
     R = B * pomo
+    crashed = None
+    timeout = None
+    td = None
+    try:
+        td = guard.call("ffsp", "reset", env.reset, TensorDict({"run_time": torch.tensor(run_time, dtype=torch.long)}, batch_size=[B]))
+        if pomo > 1:
+            td = batchify(td, pomo)
+        if pre_step:
+            td = guard.call("ffsp", "pre_step", env.pre_step, td)
+    except guard.EnvTimeout as e:
+        timeout = e
+        crashed = "%s (env.%s did not return)" % (guard.signature("ffsp", e.what), e.what)
+    if td is None or timeout is not None:
+        return [{"obs0": {"mask": [], "done": False, "stage": 0, "sm": 0}, "steps": [], "first_done": None, "J": J, "S": env.num_stage,
+                 "M": env.num_machine, "flat": bool(env.flatten_stages), "rt": [list(map(int, row)) for row in run_time[r % B]],
+                 "mtab": [], "pomo": r // B, "sched": [], "jloc": [], "reward": 0.0, "crashed": crashed, "row": r, "B": R,
+                 "timeout": timeout.what, "batch_rt": run_time, "batch_actions": []} for r in range(R)]
     mtabs = [env.tables.machine_table[r // env.tables.bs].tolist() for r in range(R)]
     rows = [{"obs0": _obs(td, r), "steps": [], "first_done": None} for r in range(R)]
-    crashed = None
-    k = 0
-    while not bool(td["done"].all()):
-        acts = []
-        for r in range(R):
-            m = rows[r]["steps"][-1][1]["mask"] if rows[r]["steps"] else rows[r]["obs0"]["mask"]
-            a = forced[r][k] if forced is not None and k < len(forced[r]) else _pick(policies[r % len(policies)], rng, m, J)
-            if a is None:
-                crashed = "empty mask row %d at step %d" % (r, k)
-                a = J
-            acts.append(a)
-        if crashed:
-            break
-        td.set("action", torch.tensor(acts, dtype=torch.long))
+    probes, seen_patterns = [], set()
+
+    def probe(k):
+        stages = [int(x) for x in td["stage_idx"].tolist()]
+        pat = _stage_pattern(stages)
+        if not probe_pre_step or pat in seen_patterns or bool(td["done"].all()):
+            return
+        seen_patterns.add(pat)
         try:
-            td = env.step(td)["next"]
-        except Exception as e:  # an admitted action must never crash the env
-            crashed = "env.step raised %s: %s" % (type(e).__name__, str(e)[:200])
-            break
-        alld = bool(td["done"].all())
-        for r in range(R):
-            o = _obs(td, r)
-            o["cmp"] = not alld
-            rows[r]["steps"].append((acts[r], o))
-            if o["done"] and rows[r]["first_done"] is None:
-                rows[r]["first_done"] = k + 1
-        k += 1
-        if k > max_steps:
-            crashed = "episode longer than %d steps" % max_steps
-            break
+            guard.call("ffsp", "pre_step", env.pre_step, td.clone())
+            probes.append({"k": k, "stages": stages, "pattern": pat, "raised": False, "error": None})
+        except guard.EnvTimeout:
+            raise
+        except Exception as e:  # noqa: BLE001
+            probes.append({"k": k, "stages": stages, "pattern": pat, "raised": True, "error": "%s: %s" % (type(e).__name__, str(e)[:120])})
+
+    batch_actions = []
+    k = 0
+    try:
+        probe(0)
+        while not bool(td["done"].all()):
+            acts = []
+            for r in range(R):
+                m = rows[r]["steps"][-1][1]["mask"] if rows[r]["steps"] else rows[r]["obs0"]["mask"]
+                a = forced[r][k] if forced is not None and k < len(forced[r]) else _pick(policies[r % len(policies)], rng, m, J)
+                if a is None:
+                    crashed = "empty mask row %d at step %d" % (r, k)
+                    a = J
+                acts.append(a)
+            if crashed:
+                break
+            batch_actions.append(list(acts))
+            td.set("action", torch.tensor(acts, dtype=torch.long))
+            try:
+                td = guard.call("ffsp", "step", env.step, td)["next"]
+            except guard.EnvTimeout:
+                raise
+            except Exception as e:  # an admitted action must never crash the env
+                crashed = "env.step raised %s: %s" % (type(e).__name__, str(e)[:200])
+                break
+            alld = bool(td["done"].all())
+            for r in range(R):
+                o = _obs(td, r)
+                o["cmp"] = not alld
+                rows[r]["steps"].append((acts[r], o))
+                if o["done"] and rows[r]["first_done"] is None:
+                    rows[r]["first_done"] = k + 1
+            k += 1
+            if k > max_steps:
+                crashed = "episode longer than %d steps" % max_steps
+                break
+            probe(k)
+    except guard.EnvTimeout as e:      # the state is abandoned (interrupted in the middle of a call)
+        timeout = e
+        crashed = "%s (after %d complete steps of the batch)" % (guard.signature("ffsp", e.what), k)
     out = []
     for r in range(R):
         rec = rows[r]
@@ -105,8 +164,95 @@ def ffsp_episode(env, run_time, policies, rng, pomo=1, pre_step=False, forced=No
                     "rt": [list(map(int, row)) for row in run_time[r % B]], "mtab": mtabs[r], "pomo": r // B,
                     "sched": td["schedule"][r].tolist(), "jloc": td["job_location"][r].tolist(),
                     "reward": float(td["reward"][r]), "crashed": crashed, "row": r, "B": R})
+        if timeout is not None:
+            rec.update({"timeout": timeout.what, "batch_rt": run_time, "batch_actions": batch_actions})
         out.append(rec)
+    if out:
+        out[0]["pre_step_probes"] = probes
     return out
+
+
+def ffsp_probe_cases(recs):
+    """the pre_step probes of one batch as (coq term, replay obj, python-level verdict) triples: the batch rows with the
+    actions each had taken when the probe was made, and whether the real env.pre_step raised"""
+    res = []
+    if not recs or not recs[0].get("pre_step_probes") or recs[0].get("crashed"):
+        return res
+    for p in recs[0]["pre_step_probes"]:
+        rows = []
+        for rec in recs:
+            inst = "(FFSP.Build_inst %s %s %s %s %s %s)" % (
+                cnat(rec["J"]), cnat(rec["S"]), cnat(rec["M"]), clist("[" + "; ".join(cz(x) for x in row) + "]" for row in rec["rt"]),
+                clist(cnat(x) for x in rec["mtab"]), cbool(rec["flat"]))
+            rows.append("(%s, %s)" % (inst, clist(cnat(a) for a, _ in rec["steps"][:p["k"]])))
+        obj = {"unit": "ffsp", "env": "FFSPEnv", "kind": "ffsp_pre_step_probe",
+               "generator_params": {"num_job": recs[0]["J"], "num_stage": recs[0]["S"], "num_machine": recs[0]["M"],
+                                    "flatten_stages": recs[0]["flat"]},
+               "batch_run_times": [rec["rt"] for rec in recs], "batch_actions_per_row": [[a for a, _ in rec["steps"][:p["k"]]] for rec in recs],
+               "steps_taken": p["k"], "stage_idx": p["stages"], "pre_step_raised": p["raised"], "error": p["error"],
+               "expected": "env.pre_step raises ('call pre_step only at beginning of env') iff some row is past stage 0"}
+        # the property on the implementation alone: its own stage_idx says a row is past stage 0, yet pre_step returned
+        bad = (not p["raised"]) and any(x != 0 for x in p["stages"])
+        res.append(("(%s, %s)" % (clist(rows), cbool(p["raised"])), obj, bad))
+    return res
+
+
+PRESTEP_SIG = "ffsp: pre_step-accepts-running-batch"
+
+
+def ffsp_mixed_stage_batches(seed, n=2, tries=12):
+    """batches (2 stages, rows of very different pace) driven until env.pre_step has been probed on a MIXED batch (some rows at
+    stage 0, some past it) -- the case in which the batch-global guard matters; own generator (other streams do not depend
+    on it).  Returns per-batch record lists with pre_step_probes."""
+    import random
+    rng = random.Random(seed * 977 + 3)
+    out = []
+    for _ in range(tries):
+        if len(out) >= n or guard.timed_out("ffsp"):
+            break
+        J, M = rng.randint(2, 3), rng.randint(1, 2)
+        env = _ffsp_env(J, 2, M, 1, 5, True)
+        B = rng.randint(2, 3)
+        run_time = [_rand_rt(rng, J, 2 * M, 1, 2)] + [[[x * 4 + 3 for x in r] for r in _rand_rt(rng, J, 2 * M, 1, 3)] for _ in range(B - 1)]
+        rng.shuffle(run_time)
+        recs = ffsp_episode(env, run_time, [rng.choice(["uniform", "nowait", "first"]) for _ in range(B)], rng, probe_pre_step=True)
+        for rec in recs:
+            rec["kind"] = "batch"
+        if recs[0].get("timeout") or any(p["pattern"] == "mixed" for p in recs[0].get("pre_step_probes") or []):
+            out.append(recs)
+    return out
+
+
+def ffsp_probe_evaluate(ctx, recs_batches, prefix, header, fail, count=True):
+    """recs_batches: list of per-batch record lists.  Python-level verdict + Coq (HC0234_ffsp.check_prestep_guard, model
+    Env/SchedGuards.v b_pre_step).  fail(sig, replay) reports a concrete failure.  Returns (n_probes, n_disagree)."""
+    triples = [t for recs in recs_batches for t in ffsp_probe_cases(recs)]
+    for term, obj, bad in triples:
+        if bad:
+            fail(PRESTEP_SIG, dict(obj, what="env.pre_step returned on a running batch (stage_idx %s)" % obj["stage_idx"]))
+        if count:
+            ctx.count("ffsp_pre_step_probes_%s_%s" % (_stage_pattern(obj["stage_idx"]), "raised" if obj["pre_step_raised"] else "returned"))
+    if not triples:
+        return 0, 0
+    try:
+        codes = coq_eval_shards(prefix, header, "list (FFSP.inst * list nat) * bool", "check_prestep_guard", [t[0] for t in triples], shard=80)
+    except RuntimeError as e:
+        ctx.broken.append("correspondence %s could not be evaluated: %s" % (prefix, str(e)[-800:]))
+        return len(triples), 1
+    ndis = 0
+    for (term, obj, bad), c in zip(triples, codes):
+        if c == 0:
+            continue
+        if c == 16:
+            fail(PRESTEP_SIG, dict(obj, code=c, what="evaluated in Coq: env.pre_step returned although the model's batch guard (b_pre_step) refuses"))
+        else:
+            ndis += 1
+            if ndis == 1:
+                path = ctx.write_replay(dict(obj, code=c, what="model/implementation disagreement on the pre_step guard (32 = the real call "
+                                                                "raised although the model lets the batch through; else a row-model code)"),
+                                        tag="corr-ffsp-prestep")
+                ctx.broken.append("correspondence %s: pre_step guard differs from the model: code %d, case file %s" % (prefix, c, path))
+    return len(triples), ndis
 
 
 def ffsp_dfs(env, run_time, rng, cap):
@@ -114,7 +260,15 @@ def ffsp_dfs(env, run_time, rng, cap):
     import torch
     from tensordict import TensorDict
     J = env.num_job
-    td0 = env.reset(TensorDict({"run_time": torch.tensor([run_time], dtype=torch.long)}, batch_size=[1]))
+    if guard.timed_out("ffsp"):
+        return [], False
+    try:
+        td0 = guard.call("ffsp", "reset", env.reset, TensorDict({"run_time": torch.tensor([run_time], dtype=torch.long)}, batch_size=[1]))
+    except guard.EnvTimeout as e:
+        return [{"crashed": guard.signature("ffsp", e.what), "timeout": e.what, "steps": [], "obs0": {"mask": [], "done": False, "stage": 0, "sm": 0},
+                 "J": J, "S": env.num_stage, "M": env.num_machine, "flat": bool(env.flatten_stages), "rt": [list(r) for r in run_time],
+                 "mtab": [], "pomo": 0, "sched": [], "jloc": [], "reward": 0.0, "row": 0, "B": 1, "first_done": None,
+                 "batch_rt": [run_time], "batch_actions": []}], False
     mtab = env.tables.machine_table[0].tolist()
     obs0 = _obs(td0, 0)
     leaves, hit = [], [False]
@@ -141,31 +295,51 @@ def ffsp_dfs(env, run_time, rng, cap):
         for a in adm:
             t2 = td.clone()
             t2.set("action", torch.tensor([a], dtype=torch.long))
-            t2 = env.step(t2)["next"]
+            try:
+                t2 = guard.call("ffsp", "step", env.step, t2)["next"]
+            except guard.EnvTimeout as e:      # reported as a leaf; the expansion of this instance is abandoned
+                leaves.append({"crashed": "%s (after the actions %s)" % (guard.signature("ffsp", e.what), [x for x, _ in steps] + [a]),
+                               "timeout": e.what, "steps": list(steps), "obs0": obs0, "J": J, "S": env.num_stage, "M": env.num_machine,
+                               "flat": bool(env.flatten_stages), "rt": [list(r) for r in run_time], "mtab": mtab, "pomo": 0, "sched": [],
+                               "jloc": [], "reward": 0.0, "row": 0, "B": 1, "first_done": None, "batch_rt": [run_time],
+                               "batch_actions": [[x] for x, _ in steps] + [[a]]})
+                hit[0] = True
+                raise
             o = _obs(t2, 0)
             o["cmp"] = not bool(t2["done"].all())
             steps.append((a, o))
             rec(t2, steps, o["mask"])
             steps.pop()
 
-    rec(td0, [], obs0["mask"])
+    try:
+        rec(td0, [], obs0["mask"])
+    except guard.EnvTimeout:
+        pass
     return leaves, hit[0]
 
 
-def _cobs(o, cmp=True):
-    return "(HC07F.Build_obs %s %s %s %s %s)" % (cboollist(o["mask"]), cbool(o["done"]), cnat(o["stage"]), cnat(o["sm"]),
-                                                cbool(o.get("cmp", cmp)))
+def _cobs(o, cmp=True, keys=True):
+    q = o.get("keys") if keys else None
+    if q is None or min([q["sub"], q["mach"]] + q["jloc"]) < 0:
+        keys = "false 0%Z 0%nat 0%nat [] [] []"
+    else:
+        nat = lambda x: cnat(min(int(x), 4999))      # (a value that large is a disagreement anyway)
+        keys = "true %s %s %s %s %s %s" % (cz(q["time"]), nat(q["sub"]), nat(q["mach"]), clist(cz(x) for x in q["mws"]),
+                                           clist(cz(x) for x in q["jws"]), clist(nat(x) for x in q["jloc"]))
+    return "(HC07F.Build_obs %s %s %s %s %s %s)" % (cboollist(o["mask"]), cbool(o["done"]), cnat(o["stage"]), cnat(o["sm"]),
+                                                   cbool(o.get("cmp", cmp)), keys)
 
 
-def ffsp_case_term(rec):
+def ffsp_case_term(rec, keys=True):
+    """keys=False: without the bookkeeping keys (C02 / C04 units: their properties do not speak about them; C07 compares them)"""
     inst = "(FFSP.Build_inst %s %s %s %s %s %s)" % (
         cnat(rec["J"]), cnat(rec["S"]), cnat(rec["M"]),
         clist("[" + "; ".join(cz(x) for x in row) + "]" for row in rec["rt"]),
         clist(cnat(x) for x in rec["mtab"]), cbool(rec["flat"]))
-    steps = clist("(%s, %s)" % (cnat(a), _cobs(o)) for a, o in rec["steps"])
+    steps = clist("(%s, %s)" % (cnat(a), _cobs(o, keys=keys)) for a, o in rec["steps"])
     sched = clist("[" + "; ".join(cz(x) for x in row) + "]" for row in rec["sched"])
     jloc = clist(cnat(x) for x in rec["jloc"])
-    return "(HC07F.Build_ffsp_case %s %s %s %s %s %s)" % (inst, _cobs(rec["obs0"]), steps, sched, jloc, cz(int(rec["reward"])))
+    return "(HC07F.Build_ffsp_case %s %s %s %s %s %s)" % (inst, _cobs(rec["obs0"], keys=keys), steps, sched, jloc, cz(int(rec["reward"])))
 
 
 def ffsp_replay_obj(rec, what, code):
@@ -176,7 +350,16 @@ def ffsp_replay_obj(rec, what, code):
             "batch_rows": rec["B"], "row": rec["row"],
             "actions": [a for a, _ in rec["steps"]],
             "observed": {"schedule": rec["sched"], "job_location": rec["jloc"], "reward": rec["reward"]},
-            "what": what, "code": code, "crashed": rec.get("crashed")}
+            "what": what, "code": code, "crashed": rec.get("crashed"),
+            **({"hangs_in": "env.%s" % rec["timeout"], "batch_run_times": rec.get("batch_rt"),
+                "batch_actions_per_step": rec.get("batch_actions")} if rec.get("timeout") else {})}
+
+
+def ffsp_crash_signature(rec):
+    """signature of a crashed FFSP record (C02 mechanisms); a call that did not return is reported as such"""
+    if rec.get("timeout"):
+        return guard.signature("ffsp", rec["timeout"])
+    return "ffsp: admitted-step-crashes-or-dead-end"
 
 
 def _rand_rt(rng, J, T, lo, hi):
@@ -191,6 +374,7 @@ def ffsp_campaign(ctx, rng, n_batches, n_dfs, dfs_cap, big=False, count=True):
         if count:
             ctx.count(key, n)
     recs, c04 = [], []
+    ffsp_campaign.batches = []       # per-batch record lists (for the pre_step probes)
     pols_all = ["uniform", "wait", "nowait", "first", "lastjob"]
     envs = {}
 
@@ -201,6 +385,8 @@ def ffsp_campaign(ctx, rng, n_batches, n_dfs, dfs_cap, big=False, count=True):
         return envs[key]
 
     for b in range(n_batches):
+        if guard.timed_out("ffsp"):       # an env call did not return: reported through the crashed records, the env is abandoned
+            break
         J = rng.randint(2, 7 if big else 5)
         S = rng.randint(2, 3) if rng.random() < 0.9 else 1
         M = rng.randint(1, 3)
@@ -235,12 +421,13 @@ def ffsp_campaign(ctx, rng, n_batches, n_dfs, dfs_cap, big=False, count=True):
         # after batchify the td still carries machine_idx / stage_machine_idx of table row 0 for every copy; the real
         # multi-start flow (MatNetPolicy) calls env.pre_step right after, and so does the harness
         pre = pomo > 1 or rng.random() < 0.3
-        rows = ffsp_episode(env, run_time, pols, rng, pomo=pomo, pre_step=pre)
+        rows = ffsp_episode(env, run_time, pols, rng, pomo=pomo, pre_step=pre, probe_pre_step=True)
         for rec in rows:
             rec["kind"] = kind
             rec["policy"] = pols[rec["row"] % len(pols)]
             rec["pre_step"] = pre
         recs += rows
+        ffsp_campaign.batches.append(rows)
         cnt("ffsp_batches_" + kind)
         # C04 side check: the same row solo, actions cut at its own finishing step
         if kind == "batch" and rows[0]["crashed"] is None and rng.random() < 0.6:
@@ -260,6 +447,8 @@ def ffsp_campaign(ctx, rng, n_batches, n_dfs, dfs_cap, big=False, count=True):
                                 "solo": {"schedule": solo["sched"], "reward": solo["reward"], "crashed": solo["crashed"]}})
     # exhaustive expansion of tiny instances
     for d in range(n_dfs):
+        if guard.timed_out("ffsp"):
+            break
         J, S, M = rng.choice([(2, 1, 1), (2, 2, 1), (2, 2, 2), (3, 2, 1), (2, 3, 1), (3, 1, 2), (3, 2, 2)])
         env = env_for(J, S, M, True)
         rt = _rand_rt(rng, J, S * M, rng.choice([0, 1]), rng.choice([1, 2, 3]))
@@ -281,7 +470,7 @@ def ffsp_evaluate(ctx, recs, prefix, count=True):
     ok_recs = []
     for rec in recs:
         if rec.get("crashed"):
-            ctx.failure("ffsp: admitted-step-crashes-or-dead-end", ffsp_replay_obj(rec, rec["crashed"], -1), tag="ffsp")
+            ctx.failure(ffsp_crash_signature(rec), ffsp_replay_obj(rec, rec["crashed"], -1), tag="ffsp")
             continue
         ok_recs.append(rec)
     cases = [ffsp_case_term(r) for r in ok_recs]
@@ -326,17 +515,42 @@ def ffsp_evaluate(ctx, recs, prefix, count=True):
 GRID = 64
 
 
+def _smtwtp_keys(td, r):
+    """(current_time * 64 as an exact integer or None, current_job)"""
+    try:
+        t = Fraction(float(td["current_time"].reshape(td.batch_size[0], -1)[r, 0])) * GRID
+        j = int(td["current_job"].reshape(td.batch_size[0], -1)[r, 0])
+    except (OverflowError, ValueError):
+        return None
+    return (int(t), j) if t.denominator == 1 and 0 <= j < 5000 else None
+
+
 def smtwtp_batch(env, rows, orders, rng):
     """rows: list of (due, wgt, ptime) integer lists in 1/64 units (index 0 = dummy); orders[r] = forced job order
-    or None (uniform walk on the impl mask)."""
+    or None (uniform walk on the impl mask).  An env call that does not return (vt/sched_guard.py) yields records with
+    crashed / timeout set."""
+    partial = []
+    try:
+        return _smtwtp_batch(env, rows, orders, rng, partial)
+    except guard.EnvTimeout as e:
+        n = len(rows[0][0]) - 1
+        acts = partial[0] if partial else []
+        return [{"mask0": [], "steps": [(a[r], [], False) for a in acts], "keys": [], "keys0": None, "n": n, "due": rows[r][0],
+                 "wgt": rows[r][1], "ptime": rows[r][2], "reward_f": None, "reward_scaled": None, "row": r, "B": len(rows),
+                 "crashed": "%s (after %d steps)" % (guard.signature("smtwtp", e.what), len(acts)), "timeout": e.what} for r in range(len(rows))]
+
+
+def _smtwtp_batch(env, rows, orders, rng, partial):
     import torch
     from tensordict import TensorDict
     B = len(rows)
     n = len(rows[0][0]) - 1
     f = lambda k: torch.tensor([[x / GRID for x in rows[r][k]] for r in range(B)], dtype=torch.float32)
-    td = env.reset(TensorDict({"job_due_time": f(0), "job_weight": f(1), "job_process_time": f(2)}, batch_size=[B]))
-    recs = [{"mask0": [bool(x) for x in td["action_mask"][r].tolist()], "steps": [], "crashed": None} for r in range(B)]
+    td = guard.call("smtwtp", "reset", env.reset, TensorDict({"job_due_time": f(0), "job_weight": f(1), "job_process_time": f(2)}, batch_size=[B]))
+    recs = [{"mask0": [bool(x) for x in td["action_mask"][r].tolist()], "steps": [], "crashed": None, "keys": [],
+             "keys0": _smtwtp_keys(td, r)} for r in range(B)]
     actions = []
+    partial.append(actions)
     k = 0
     while True:
         d = td["done"].reshape(-1) if "done" in td.keys() else torch.zeros(B, dtype=torch.bool)
@@ -354,14 +568,15 @@ def smtwtp_batch(env, rows, orders, rng):
                 recs[r]["crashed"] = "empty mask before done at step %d" % k
                 acts.append(0)
         td.set("action", torch.tensor(acts, dtype=torch.long))
-        td = env.step(td)["next"]
         actions.append(acts)
+        td = guard.call("smtwtp", "step", env.step, td)["next"]
         dd = td["done"].reshape(-1)
         for r in range(B):
             recs[r]["steps"].append((acts[r], [bool(x) for x in td["action_mask"][r].tolist()], bool(dd[r])))
+            recs[r]["keys"].append(_smtwtp_keys(td, r))
         k += 1
     at = torch.tensor(actions, dtype=torch.long).T.contiguous()
-    rew = env.get_reward(td, at)
+    rew = guard.call("smtwtp", "get_reward", env.get_reward, td, at)
     for r in range(B):
         fr = Fraction(float(rew[r])) * GRID * GRID
         recs[r].update({"n": n, "due": rows[r][0], "wgt": rows[r][1], "ptime": rows[r][2], "reward_f": float(rew[r]),
@@ -369,11 +584,31 @@ def smtwtp_batch(env, rows, orders, rng):
     return recs
 
 
-def smtwtp_case_term(rec):
+def smtwtp_case_term(rec, keys=True):
     inst = "(SMTWTP.Build_inst %s %s %s %s)" % (cnat(rec["n"]), clist(cz(x) for x in rec["due"]),
                                                clist(cz(x) for x in rec["wgt"]), clist(cz(x) for x in rec["ptime"]))
     steps = clist("(%s, (%s, %s))" % (cnat(a), cboollist(m), cbool(d)) for a, m, d in rec["steps"])
-    return "(HC07F.Build_smtwtp_case %s %s %s %s)" % (inst, cboollist(rec["mask0"]), steps, cz(rec["reward_scaled"]))
+    ks = (rec.get("keys") or []) if keys else []
+    keys = clist("(%s, %s)" % (cz(t), cnat(j)) for t, j in ks) if ks and all(q is not None for q in ks) else "[]"
+    return "(HC07F.Build_smtwtp_case %s %s %s %s %s)" % (inst, cboollist(rec["mask0"]), steps, cz(rec["reward_scaled"]), keys)
+
+
+CLOCK_SIG = "smtwtp: current_time-is-not-the-completion-time-of-the-scheduled-prefix"
+
+
+def smtwtp_clock_check(rec):
+    """spec-on-impl: the clock the policy context reads is the completion time of the scheduled prefix (instance data + actions
+    only); None = holds"""
+    c = 0
+    for k, ((a, _, _), q) in enumerate(zip(rec["steps"], rec.get("keys") or []), 1):
+        c += rec["ptime"][a]
+        if q is None:
+            return "current_time / current_job after step %d are not finite numbers on the 1/64 grid" % k
+        if q[0] != c:
+            return "current_time after step %d is %s/64, the completion time of the scheduled prefix is %s/64" % (k, q[0], c)
+        if q[1] != a:
+            return "current_job after step %d is %s, the action taken is %s" % (k, q[1], a)
+    return None
 
 
 def smtwtp_replay_obj(rec, what, code):
@@ -448,10 +683,21 @@ def smtwtp_evaluate(ctx, recs, prefix, count=True):
     for rec in recs:
         if rec["crashed"] or rec["reward_scaled"] is None:
             if rec["crashed"]:
-                ctx.failure("smtwtp: dead-end-before-done", smtwtp_replay_obj(rec, rec["crashed"], -1), tag="smtwtp")
+                ctx.failure(guard.signature("smtwtp", rec["timeout"]) if rec.get("timeout") else "smtwtp: dead-end-before-done",
+                            smtwtp_replay_obj(rec, rec["crashed"], -1), tag="smtwtp")
             else:
                 ctx.count("smtwtp_not_exact_skipped")
             continue
+        if rec.get("keys0") != (0, 0):
+            ctx.broken.append("correspondence C07/smtwtp: current_time / current_job after reset are %r, the model has (0, 0)" % (rec.get("keys0"),))
+        if count and rec.get("keys") and all(q is not None for q in rec["keys"]):
+            ctx.count("smtwtp_states_with_bookkeeping_keys_compared", len(rec["keys"]))
+        why = smtwtp_clock_check(rec)
+        if why is not None:
+            ctx.failure(CLOCK_SIG, dict(smtwtp_replay_obj(rec, why, -1),
+                                        observed_current_time_x64_and_current_job_per_step=rec.get("keys"),
+                                        expected="td['current_time'] after step k = sum of job_process_time of the first k actions "
+                                                 "(C07_SMTWTP_clock_is_completion_time); td['current_job'] = the k-th action"), tag="smtwtp")
         ok.append(rec)
     cases = [smtwtp_case_term(r) for r in ok]
     try:
@@ -511,6 +757,9 @@ def run_unit(ctx, proofs_ok):
     nb, nd, cap = (700, 120, 600) if thorough else (110, 20, 150)
     recs, c04 = ffsp_campaign(ctx, rng, nb, nd, cap)
     res_f = ffsp_evaluate(ctx, recs, "cases_C07_ffsp")
+    # misuse guard of env.pre_step, probed on clones of the running batches (model: Env/SchedGuards.v b_pre_step)
+    n_probe, probe_dis = ffsp_probe_evaluate(ctx, ffsp_campaign.batches + ffsp_mixed_stage_batches(ctx.seed), "cases_C07_ffsp_prestep", HEADER_GUARD,
+                                             lambda sig, rep: ctx.failure(sig, rep, tag="ffsp"))
     for k, rec in enumerate(r for r in recs if not r.get("crashed")):
         if k < 2:
             ctx.sample({"unit": "ffsp", "J": rec["J"], "S": rec["S"], "M": rec["M"], "run_time": rec["rt"],
@@ -535,11 +784,17 @@ def run_unit(ctx, proofs_ok):
         "ffsp_solo_vs_batched_differences": len(c04),
         "observables": "action_mask (impl inside model), done, stage_idx, stage_machine_idx per step; schedule, job_location, "
                        "reward at the end; spec-on-impl: FlowShop.validb, makespan = -reward, permutation, weighted tardiness",
+        "bookkeeping_keys_compared_per_state": {"FFSPEnv": FFSP_KEYS_COMPARED, "SMTWTPEnv": SMTWTP_KEYS_COMPARED,
+                                                "FFSPEnv at the end": ["schedule", "job_location", "reward"],
+                                                "not compared (constant instance data / no model counterpart)": [
+                                                    "job_duration", "run_time", "SMTWTP job_due_time / job_weight / job_process_time"]},
+        "pre_step_guard_probes": n_probe, "pre_step_guard_disagreements": probe_dis,
+        "env_call_guard": guard.evidence(),
     }
 
     # ---------------- search: the property itself on a larger sample, when something no longer checks
     broken_here = (not proofs_ok) or any("C07/ffsp" in b or "C07/smtwtp" in b for b in ctx.broken)
-    if broken_here and not ctx.violations:
+    if broken_here and not ctx.violations and not guard.timed_out():
         r2, _ = ffsp_campaign(ctx, rng, 150, 20, 300, big=True, count=False)
         ffsp_evaluate(ctx, r2, "cases_C07_ffsp_search", count=False)
         s2 = smtwtp_campaign(ctx, rng, 150, 20, count=False)
@@ -556,11 +811,39 @@ def replay(obj):
         env = SMTWTPEnv(generator_params=obj["generator_params"], check_solution=False)
         row = (obj["job_due_time_x64"], obj["job_weight_x64"], obj["job_process_time_x64"])
         rec = smtwtp_batch(env, [row], [obj["actions"]], rng)[0]
+        print("signature:", obj.get("signature"))
         print("actions taken:", [a for a, _, _ in rec["steps"]], "recorded:", obj["actions"])
         print("reward now:", rec["reward_f"], "recorded:", obj["observed_reward"])
-        return 0
+        why = smtwtp_clock_check(rec)
+        print("(current_time x64, current_job) after each step now:", rec.get("keys"))
+        print("clock = completion time of the scheduled prefix:", why or "holds")
+        return 1 if why else 0
     gp = obj["generator_params"]
     env = _ffsp_env(gp["num_job"], gp["num_stage"], gp["num_machine"], 1, 5, gp.get("flatten_stages", True))
+    print("signature:", obj.get("signature"))
+    if obj.get("kind") == "ffsp_pre_step_probe":
+        import torch
+        from tensordict import TensorDict
+        td = env.reset(TensorDict({"run_time": torch.tensor(obj["batch_run_times"], dtype=torch.long)}, batch_size=[len(obj["batch_run_times"])]))
+        for k in range(obj["steps_taken"]):
+            td.set("action", torch.tensor([row[k] for row in obj["batch_actions_per_row"]], dtype=torch.long))
+            td = guard.call("ffsp", "step", env.step, td)["next"]
+        print("stage_idx now:", td["stage_idx"].tolist(), "recorded:", obj["stage_idx"])
+        try:
+            env.pre_step(td.clone())
+            raised = False
+        except Exception as e:  # noqa: BLE001
+            raised = True
+            print("env.pre_step raised:", type(e).__name__, str(e)[:120])
+        print("env.pre_step raised now: %s, recorded: %s; a row past stage 0: %s" % (raised, obj["pre_step_raised"], any(x != 0 for x in td["stage_idx"].tolist())))
+        return 0 if raised == any(x != 0 for x in td["stage_idx"].tolist()) else 1
+    if obj.get("batch_run_times") is not None and obj.get("hangs_in"):
+        acts = obj.get("batch_actions_per_step") or []
+        forced = [[a[r] for a in acts] for r in range(len(obj["batch_run_times"]))]
+        recs = ffsp_episode(env, obj["batch_run_times"], ["first"], rng, forced=forced, max_steps=max(1, len(acts)))
+        print("recorded: %s did not return after the batch actions %s" % (obj["hangs_in"], acts))
+        print("now:", recs[0]["crashed"] if recs[0].get("timeout") else "every recorded step returns")
+        return 1 if recs[0].get("timeout") else 0
     rec = ffsp_episode(env, [obj["run_time"]], ["first"], rng, forced=[obj["actions"]])[0]
     print("what:", obj.get("what"))
     print("schedule now:     ", rec["sched"])
